@@ -1,8 +1,8 @@
 (* C03 - orientation: the test of _extract_surface_boundary (Gen.v) against the geometric meaning of "outward" *)
-From Coq Require Import String List Arith Bool ZArith Lia.
+From Coq Require Import String List Arith Bool ZArith Lia Permutation.
 Import ListNotations.
 Require Import MV.Lib.Base MV.C03.Gen MV.C03.Model.
-Open Scope Z_scope.
+Local Open Scope Z_scope.
 
 (* det(pA-pD, pB-pD, pC-pD) = - ((B-A) x (C-A)) . (D-A) *)
 Lemma det_is_minus_triple (a b c d : vec) :
@@ -17,3 +17,132 @@ Proof.
   unfold orient_test_Z, outward_Z. rewrite det_is_minus_triple.
   destruct (0 <? _) eqn:E1; destruct (_ <? 0) eqn:E2; lia.
 Qed.
+
+Lemma det_swap_last (u v w : vec) : det_3x3 u w v = - det_3x3 u v w.
+Proof.
+  destruct u as [[u0 u1] u2], v as [[v0 v1] v2], w as [[w0 w1] w2]. unfold det_3x3. ring.
+Qed.
+
+Lemma orient_then_def {A} (x y z : A) : orient_then x y z = [x; y; z].
+Proof. reflexivity. Qed.
+Lemma orient_else_def {A} (x y z : A) : orient_else x y z = [x; z; y].
+Proof. reflexivity. Qed.
+
+(* whichever branch is taken, the emitted triple is outward for a non-degenerate cell *)
+Lemma orient_branch_outward (a b c d : vec) :
+  det_3x3 (vsub3 a d) (vsub3 b d) (vsub3 c d) <> 0 ->
+  if orient_test_Z a b c d then outward_Z a b c d = true else outward_Z a c b d = true.
+Proof.
+  intros ND. destruct (orient_test_Z a b c d) eqn:T.
+  - now rewrite <- orient_test_iff_outward.
+  - rewrite <- orient_test_iff_outward. unfold orient_test_Z in *.
+    rewrite det_swap_last. apply Z.ltb_lt. apply Z.ltb_ge in T. lia.
+Qed.
+
+(* ------------------------------------------------------------------ m2b / b2m *)
+Close Scope Z_scope.
+Lemma index_first_sound p l k j :
+  index_first p l k = Some j -> k <= j /\ exists x, nth_error l (j - k) = Some x /\ p x = true.
+Proof.
+  revert k. induction l as [|x t IH]; simpl; intros k H; [discriminate|].
+  destruct (p x) eqn:P.
+  - inversion H; subst. split; [lia|]. rewrite Nat.sub_diag. now exists x.
+  - apply IH in H. destruct H as [L [y [E Py]]]. split; [lia|].
+    replace (j - k) with (S (j - S k)) by lia. now exists y.
+Qed.
+
+Lemma m2b_b2m vs v i : m2b vs v = Some i -> b2m vs i = Some v.
+Proof.
+  unfold m2b, b2m. intros H. apply index_first_sound in H. destruct H as [_ [x [E P]]].
+  rewrite Nat.sub_0_r in E. apply Nat.eqb_eq in P. now subst.
+Qed.
+
+Lemma index_first_complete v l k j :
+  NoDup l -> nth_error l j = Some v -> index_first (Nat.eqb v) l k = Some (k + j).
+Proof.
+  revert k j. induction l as [|x t IH]; intros k j ND E; [destruct j; discriminate|].
+  simpl. destruct j as [|j]; simpl in E.
+  - inversion E; subst. rewrite Nat.eqb_refl. f_equal. lia.
+  - inversion ND as [|? ? Hx ND']; subst.
+    destruct (v =? x) eqn:V.
+    + apply Nat.eqb_eq in V. subst. exfalso. apply Hx. eapply nth_error_In; eassumption.
+    + rewrite (IH (S k) j ND' E). f_equal. lia.
+Qed.
+
+Lemma b2m_m2b vs v i : NoDup vs -> b2m vs i = Some v -> m2b vs v = Some i.
+Proof. unfold m2b, b2m. intros ND H. now rewrite (index_first_complete v vs 0 i ND H). Qed.
+
+(* vertex index maps are mutually inverse for every duplicate-free enumeration of the border vertices *)
+Theorem vertex_maps_inverse vs v i : NoDup vs -> (m2b vs v = Some i <-> b2m vs i = Some v).
+Proof. intros ND. split; [apply m2b_b2m | now apply b2m_m2b]. Qed.
+
+(* ------------------------------------------------------------------ _BoundaryConnectivity faces *)
+Theorem bc_face_outward cells faces pos f2c vs iF T :
+  bc_face cells faces pos f2c vs iF = Ok T ->
+  exists a b c d iC p q r,
+    nth iF faces [] = [a; b; c] /\ hd_error (F2C f2c iF) = Some iC
+    /\ hd_error (others (nth iC cells []) [a; b; c]) = Some d
+    /\ map (b2m vs) T = [Some p; Some q; Some r]
+    /\ Permutation [p; q; r] [a; b; c]
+    /\ (det_3x3 (vsub3 (pos a) (pos d)) (vsub3 (pos b) (pos d)) (vsub3 (pos c) (pos d)) <> 0%Z ->
+        outward_Z (pos p) (pos q) (pos r) (pos d) = true).
+Proof.
+  unfold bc_face. destruct (F2C f2c iF) as [|iC rest] eqn:E1; [discriminate|].
+  destruct (nth iF faces []) as [|a [|b [|c [|? ?]]]] eqn:E2; try discriminate.
+  destruct (others (nth iC cells []) [a; b; c]) as [|d rest'] eqn:E3; [discriminate|].
+  destruct (m2b vs a) as [ba|] eqn:Ma; [|discriminate].
+  destruct (m2b vs b) as [bb|] eqn:Mb; [|discriminate].
+  destruct (m2b vs c) as [bc|] eqn:Mc; [|discriminate].
+  apply m2b_b2m in Ma, Mb, Mc. intros H. inversion H; subst T; clear H.
+  pose proof (orient_branch_outward (pos a) (pos b) (pos c) (pos d)) as OB.
+  destruct (orient_test_Z (pos a) (pos b) (pos c) (pos d)).
+  - exists a, b, c, d, iC, a, b, c. rewrite orient_then_def. cbn [map]. rewrite Ma, Mb, Mc.
+    split; [reflexivity|]. split; [reflexivity|]. split; [now rewrite E3|].
+    split; [reflexivity|]. split; [reflexivity|exact OB].
+  - exists a, b, c, d, iC, a, c, b. rewrite orient_else_def. cbn [map]. rewrite Ma, Mb, Mc.
+    split; [reflexivity|]. split; [reflexivity|]. split; [now rewrite E3|].
+    split; [reflexivity|]. split; [apply perm_skip, perm_swap | exact OB].
+Qed.
+
+(* ------------------------------------------------------------------ the convention order (standalone extractor) *)
+Local Open Scope Z_scope.
+(* a cell (A,B,C,D) is positive in mouette's own determinant det(pA-pD, pB-pD, pC-pD) (attr_cells.cell_volume) *)
+Definition cell_positive (pos : nat -> vec) (C : list nat) : Prop :=
+  match C with
+  | [v0; v1; v2; v3] => 0 < det_3x3 (vsub3 (pos v0) (pos v3)) (vsub3 (pos v1) (pos v3)) (vsub3 (pos v2) (pos v3))
+  | _ => False
+  end.
+Definition face_outward (pos : nat -> vec) (F : list nat) (d : nat) : Prop :=
+  match F with
+  | [a; b; c] => outward_Z (pos a) (pos b) (pos c) (pos d) = true
+  | _ => False
+  end.
+
+Theorem convention_faces_outward pos v0 v1 v2 v3 i :
+  cell_positive pos [v0; v1; v2; v3] -> (i < 4)%nat ->
+  face_outward pos (nth i (tet_faces_completion v0 v1 v2 v3) []) (nth i [v0; v1; v2; v3] 0%nat).
+Proof.
+  unfold cell_positive. intros P Hi.
+  destruct (pos v0) as [[x0 y0] z0] eqn:E0, (pos v1) as [[x1 y1] z1] eqn:E1,
+           (pos v2) as [[x2 y2] z2] eqn:E2, (pos v3) as [[x3 y3] z3] eqn:E3.
+  unfold det_3x3, vsub3 in P.
+  destruct i as [|[|[|[|]]]]; try lia; cbn [nth tet_faces_completion face_outward];
+    rewrite ?E0, ?E1, ?E2, ?E3; unfold outward_Z, dot3, cross3, vsub3; apply Z.ltb_lt; lia.
+Qed.
+
+(* with the opposite (right-handed) sign convention det(p1-p0, p2-p0, p3-p0) > 0 the same faces all point inwards *)
+Theorem convention_faces_inward_if_right_handed pos v0 v1 v2 v3 i :
+  0 < det_3x3 (vsub3 (pos v1) (pos v0)) (vsub3 (pos v2) (pos v0)) (vsub3 (pos v3) (pos v0)) -> (i < 4)%nat ->
+  match nth i (tet_faces_completion v0 v1 v2 v3) [] with
+  | [a; b; c] => outward_Z (pos a) (pos c) (pos b) (pos (nth i [v0; v1; v2; v3] 0%nat)) = true
+  | _ => False
+  end.
+Proof.
+  intros P Hi.
+  destruct (pos v0) as [[x0 y0] z0] eqn:E0, (pos v1) as [[x1 y1] z1] eqn:E1,
+           (pos v2) as [[x2 y2] z2] eqn:E2, (pos v3) as [[x3 y3] z3] eqn:E3.
+  unfold det_3x3, vsub3 in P.
+  destruct i as [|[|[|[|]]]]; try lia; cbn [nth tet_faces_completion];
+    rewrite ?E0, ?E1, ?E2, ?E3; unfold outward_Z, dot3, cross3, vsub3; apply Z.ltb_lt; lia.
+Qed.
+Close Scope Z_scope.
